@@ -4,7 +4,7 @@ from pathlib import Path
 LIBS = ["libavoid"]
 HARNESS = "harness/c05.cpp"
 DRIVER_MODE = "c05"
-LEAN_MODULES = ["AdaptaVerif.Props.C05", "AdaptaVerif.Props.C05Tie"]
+LEAN_MODULES = ["AdaptaVerif.Props.C05", "AdaptaVerif.Props.C05Tie", "AdaptaVerif.Props.C05AStar"]
 LEVEL = "translation_validation"
 LEVEL_TEXT = ("Sentence 3 (estimator never overestimates) is a Lean theorem for all rational inputs about a "
               "hand model of bends()/estimatedCostSpecific() (bends_admissible, bends_tight, bends_total, "
@@ -16,8 +16,16 @@ LEVEL_TEXT = ("Sentence 3 (estimator never overestimates) is a Lean theorem for 
               "displayRoute(), and raw route cost = optimum of the Hanan state graph, where the optimum is "
               "certified by a potential + witness re-checked in exact rationals by a Lean checker with a "
               "soundness theorem (hanan_cert_sound, potential_lower_bound).")
-LEVEL_NOTE = ("Not modelled: the scan-line construction of the orthogonal visibility graph, the A* loop and its "
-              "turn-pruning rule, the zero-cost final hop from a cost target; a lost optimum shows up only as a "
+LEVEL_NOTE = ("The A* search itself IS modelled (Model/AStar.lean: node = (vertex, previous node), DONE/PENDING keyed on "
+              "(vertex, previous vertex), ANodeCmp with time stamps, CmpVisEdgeRotation edge order, skip rules, the turn-pruning "
+              "rule as written, cost() for orthogonal connectors, cost targets, zero-cost last hop, per-vertex pathNext read-back) "
+              "and proved sound for all problems and optimal under consistency (Props/C05AStar: search_sound, search_optimal, "
+              "graph_search_optimal); on every routed scene the model is run on libavoid's own dumped graph and the C++ route() must "
+              "be vertex-for-vertex the model's route (cost() and ANodeCmp are also called directly). The estimator is NOT "
+              "consistent with cost() (estimator_inconsistent_into_cost_target / _doubling_back; the driver classifies the "
+              "first inconsistent edge of sampled graphs), so optimality of the real search is not a theorem - it stays validated "
+              "per scene by the certificates below. Not modelled: the scan-line construction of the orthogonal visibility graph, "
+              "pins, checkpoints, clusters, crossing penalties; a lost optimum shows up only as a "
               "cost gap on a generated scene. 'An optimal orthogonal path exists on the Hanan grid' is taken as "
               "the oracle's definition (classical fact, not proved). The estimator theorems are about the model; "
               "its tie to the C++ is sampled (complete over sign classes, which is all bends() depends on). "
@@ -44,11 +52,15 @@ RULE = ("case 0: exhaustive bends() over offsets {-2..2}^2 minus origin x 4 x 4 
         "the source/target of the judged connector (gaps 20-200 in the 'tempting line' shape with an obstacle on the "
         "target's column, penalties 10/50; gaps 1-14 in random scenes), judged against the Hanan optimum with true "
         "geometric lengths; a scene is non-trivial if the routed path has at least one bend; a kernel chunk if "
-        "it made at least one call")
+        "it made at least one call; every scene (thorough: every 2nd, graphs up to 400 vertices) also carries libavoid's raw "
+        "orthogonal visibility graph (points, flags, isConnPt, orthogVisList in list order with getDist) on which the Lean A* "
+        "model is run: route() must equal the model's route exactly (equal as-coded cost suffices only where a vertex has two "
+        "edges in one direction); class astar-kernels: cost() on random point triples (orthogonal connector, penalties "
+        "0/10/50/200, reverseDirectionPenalty) and ANodeCmp on (f, timeStamp) pairs around 1e-7, called directly")
 TRUSTED_BASE = ["Lean 4.33 kernel", "axioms: propext, Classical.choice, Quot.sound",
                 "cpp2lean translator + clang AST (bends() and direction helpers regenerated each run, bridge lemmas to the model; cross-checked by the correspondence)",
                 "harness (scene generator, line writer) + hex-float import",
-                "Lean compiler for the driver (Check.Hanan.checkCert, Model.Bends run compiled)",
+                "Lean compiler for the driver (Check.Hanan.checkCert, Model.Bends, Model.AStar run compiled)",
                 "Hanan-grid fact: some optimal orthogonal path lies on the grid of obstacle sides and endpoint coordinates",
                 "IEEE exactness of +,- on the generated half-integers (route coordinates are exact)"]
 ASSUMPTIONS = ["all routing penalties other than segmentPenalty are 0; one connector per scene; no clusters/pins/checkpoints",
@@ -80,7 +92,7 @@ def regenerate(ROOT, REPO):
     from pathlib import Path as _P
     sys.path.insert(0, str(_P(ROOT) / "tools" / "cpp2lean"))
     import jobs
-    return jobs.regenerate(["makepath"], _P(ROOT), _P(REPO))
+    return jobs.regenerate(["makepath", "astar"], _P(ROOT), _P(REPO))
 
 
 def plan(tier, seed, searching):
